@@ -287,7 +287,7 @@ func uniqueNames(r *vproto.Rng, n int, allowCollide, allowLong bool) []string {
 			s = fmt.Sprintf("F%d", r.Intn(1000))
 		}
 		s = exportName(s)
-		if seenExact[s] || (!allowLong && len(s) > 10) {
+		if seenExact[s] || (!allowLong && len(s) > 11) { // 11 bytes fill go-shp's [11]byte name slot completely (no terminator) and are read back unchanged
 			continue
 		}
 		if seenLower[strings.ToLower(s)] && !(allowCollide && r.Intn(2) == 0) {
@@ -469,7 +469,7 @@ func genCase(r *vproto.Rng, tier string) fcase {
 		switch r.Intn(6) {
 		case 0:
 			tags[i] = strings.ToLower(namePool[r.Intn(len(namePool))])
-			if !loose && (len(tags[i]) > 10 || tags[i] != exportNameLower(tags[i])) {
+			if !loose && (len(tags[i]) > 11 || tags[i] != exportNameLower(tags[i])) {
 				tags[i] = ""
 			}
 		case 1:
@@ -784,6 +784,16 @@ func corpus() []fcase {
 		r:    spec{path: 'S', sf: []sfield{{"G", "", "gP"}, {"Val", "", "i"}, {"VAL", "", "i"}, {"Z", "VaL", "i"}}},
 		recs: []rec{{P(0, 0), []val{iv(1), iv(2), iv(3)}}},
 	})
+	// 7a. column names of exactly eleven bytes fill go-shp's [11]byte name slot without a terminator and are matched like any other
+	// (struct field name, tag, field-based name; ten bytes next to them)
+	{
+		ws := spec{path: 'S', sf: []sfield{{"G", "", "gP"}, {"ID", "", "i"}, {"Temperature", "", "f"}, {"Name", "stationname", "s"}, {"Abcdefghij", "", "i"}}}
+		wf := spec{path: 'F', shpTyp: 1, ff: []ffield{{"ID", 'N', 10, 0}, {"Temperature", 'F', 30, 10}, {"StationName", 'C', 50, 0}, {"abcdefghij", 'N', 10, 0}}}
+		recs := []rec{{P(1, 2), []val{iv(7), fv(21.5), sv("alpha"), iv(1)}}, {P(3, 4), []val{iv(8), fv(-3.25), sv("beta"), iv(2)}}}
+		rs := spec{path: 'S', sf: []sfield{{"G", "", "gP"}, {"ID", "", "i"}, {"TEMPERATURE", "", "f"}, {"Q", "StationName", "s"}, {"Abcdefghij", "", "i"}}}
+		rf := spec{path: 'F', names: []string{"id", "temperature", "STATIONNAME", "AbcdefghiJ"}}
+		out = append(out, fcase{w: ws, r: rs, recs: recs}, fcase{w: ws, r: rf, recs: recs}, fcase{w: wf, r: rs, recs: recs}, fcase{w: wf, r: rf, recs: recs})
+	}
 	// 7b. reading schedules on one decoder: geometry-only reads between reads with attributes, DecodeRow after DecodeRowFields
 	{
 		w := spec{path: 'F', shpTyp: 1, ff: []ffield{{"id", 'N', 10, 0}, {"name", 'C', 50, 0}}}
